@@ -1458,6 +1458,14 @@ class Executor:
                         yield from chain(k + 1, s1)
             yield from chain(2, st)
             return
+        if t[0] == "cmp" and t[1] in ("Is", "IsNot", "Eq", "NotEq"):
+            # flag is True / flag is False  where flag is itself a test kept in a variable (dropped = a is True and type(i) is X)
+            for x, c in ((t[2], t[3]), (t[3], t[2])):
+                if c[0] == "const" and isinstance(c[1], bool) and _boolean_valued(x):
+                    want = c[1] if t[1] in ("Is", "Eq") else (not c[1])
+                    for s1, b in self.decide(x, st, node):
+                        yield s1, (b == want)
+                    return
         if t in st.memo:
             yield st, st.memo[t]
             return
@@ -1968,6 +1976,19 @@ def _literal_term(node, mod=None):
         if all(x is not None and x[0] in ("const", "builtin") for x in ks) and all(x is not None for x in vs):
             return ("dict",) + tuple(ks) + tuple(vs)
     return None
+
+
+def _boolean_valued(t):
+    """the term is a bool whatever its operands are: a comparison, a negation, isinstance / callable / bool(...), or and / or of such"""
+    if t[0] in ("cmp", "not"):
+        return True
+    if t[0] == "call" and t[1] in (("builtin", "isinstance"), ("builtin", "callable"), ("builtin", "bool")):
+        return True
+    if t[0] == "boolop":
+        return all(_boolean_valued(x) for x in t[2:])
+    if t[0] == "const":
+        return isinstance(t[1], bool)
+    return False
 
 
 def _module_mutates(mod, name):
